@@ -103,8 +103,17 @@ def make (c):
                     d [2] = abs (d [2])
                 g [e] = [float (x) for x in np.array (g [e]) + d]
         spec ['fuzzy'] = True
+    # (wires of two segments tapered from one end have segments of one and two thirds of their length)
+    r2 = np.random.default_rng ([c ['seed'], 181, c ['i']])
+    if r2.random () < 0.4 and not spec.get ('fuzzy'):
+        cand = [g for g in geo if g ['k'] == 'w' and np.linalg.norm (np.array (g ['p2']) - np.array (g ['p1'])) <= gen.C_MHZ / spec ['f'] / 4
+                                and np.linalg.norm (np.array (g ['p2']) - np.array (g ['p1'])) / 6 >= 2.6 * g ['r']]
+        if len (cand) > 1 or (cand and len (geo) > 1):
+            g = cand [int (r2.integers (0, len (cand)))]
+            g ['n'] = 2
+            g ['taper'] = [int (r2.integers (1, 4)), None, None]
     for g in geo:
-        if g ['k'] == 'w' and g ['n'] >= 3 and rng.random () < 0.2 and not spec.get ('fuzzy'):
+        if g ['k'] == 'w' and g ['n'] >= 3 and rng.random () < 0.2 and not spec.get ('fuzzy') and not g.get ('taper'):
             # minimum segment length of 8.5 radii keeps most tapered wires inside the thin-wire rules
             g ['taper'] = [int (rng.integers (1, 4)), (float (8.5 * g ['r']) if rng.random () < 0.75 else None), None]
     # sources
